@@ -23,7 +23,13 @@ def scenarios(ctx):
         d = s.cfg["pumpdir"]
         dd = "<" if d == 1 else ">"
         pumps.append(Scn(s.name + ".then", s.arr + [(dd, tail[d]), (dd, tail[d][2:])], dict(s.cfg, cls="pump-then", wf=0), (), (), s.close))
-    return base + ex + cb + raw + pumps + gens.gaps(ctx.seed, q) + gens.structural(ctx.seed, q, per=40 if q else 400)
+    # a direction that has failed (callback returned ERROR, field limit) stays failed through htp_connp_close and in data calls made after it
+    after = []
+    more = {">": b"GET /after-close HTTP/1.1\r\nHost: h\r\n\r\n", "<": b"HTTP/1.1 200 OK\r\nContent-Length: 0\r\n\r\n"}
+    for s in (cb[::2] + pumps):
+        arr = [x for x in s.arr if x[0] != "C"] + [("C", 0), ("<", more["<"]), (">", more[">"]), ("<", more["<"])]
+        after.append(Scn(s.name + ".afterclose", arr, dict(s.cfg, mode="raw", wf=0, cls="after-close"), s.beh, (), False))
+    return base + ex + cb + raw + pumps + after + gens.gaps(ctx.seed, q) + gens.structural(ctx.seed, q, per=40 if q else 400)
 
 
 def run(ctx):
